@@ -384,10 +384,43 @@ class Prop(SeqProp):
             rng.shuffle(perm)
             out.append({"kind": "failing-stream", "arrivals": perm, "fail_at": rng.randint(0, n - 1),
                         "end": rng.choice(["\n", "\n", ";;"]), "flush_mid": rng.random() < 0.3})
+        # long runs: thousands of values held back and released by one arrival
+        for n in ((1500, 5000) if tier == "quick" else (1500, 5000, 20000)):
+            out.append({"kind": "long-run", "n": n, "hold": rng.choice([1, 2, n // 2])})
         return out
 
     def run_extra(self, desc):
         from windpyutils.buffers import PrintBuffer
+        if desc["kind"] == "long-run":
+            from windpyutils.buffers import Buffer
+            n, hold = desc["n"], desc["hold"]
+            # serial numbers hold .. n-1 arrive first (all held back), then 0 .. hold-1: the last arrival releases the long run
+            order = list(range(hold, n)) + list(range(hold))
+            sio = io.StringIO()
+            pb = PrintBuffer(sio)
+            try:
+                for k in order:
+                    pb.print(k, f"v{k}")
+            except BaseException as e:  # noqa
+                if isinstance(e, (KeyboardInterrupt, SystemExit)):
+                    raise
+                return f"PrintBuffer: {n} values, {n - hold} of them held back and released by one arrival: print raised {err_name(e)}"
+            if sio.getvalue() != "".join(f"v{k}\n" for k in range(n)) or len(pb) != 0 or pb.waiting_for != n:
+                return (f"PrintBuffer: {n} values with {n - hold} held back: {sio.getvalue().count(chr(10))} lines printed, "
+                        f"{len(pb)} still held, waiting_for {pb.waiting_for}")
+            b = Buffer()
+            got = []
+            try:
+                for k in order:
+                    b(k, k * 3)
+                    got += list(b)
+            except BaseException as e:  # noqa
+                if isinstance(e, (KeyboardInterrupt, SystemExit)):
+                    raise
+                return f"Buffer: {n} items, {n - hold} held back: raised {err_name(e)}"
+            if got != [k * 3 for k in range(n)] or len(b) != 0 or b.waiting_for() != n:
+                return f"Buffer: {n} items with {n - hold} held back: {len(got)} emitted, {len(b)} held, waiting_for {b.waiting_for()}"
+            return None
         end = desc["end"]
 
         class Stream:
